@@ -249,3 +249,46 @@ impl PollStream {
 //@ splice-stmts quic/s2n-quic-transport/src/stream/receive_stream.rs "ReceiveStream" poll_request "from=if let Some(total_size) = total_size" dropstmt=debug_assert!
     }
 }
+
+// ---- ReceiveStream::poll_request: what happens to one chunk popped for the application ---------------------------------------
+// C04 "buffered bytes never exceed the advertised window": the flow-control credit released for a chunk that is handed to the
+// application is exactly the chunk's length (so that advertised <= consumed + window stays an equality of bookkeeping), and
+// the byte / chunk counters reported to the application advance by exactly that chunk.  Statements from `let data_len = ..` to
+// `*high_watermark = ..` and the two counter updates, extracted verbatim (the `mem::replace` of the placeholder chunk between
+// them is not: Bytes).
+pub struct ChunkX { pub n: usize }
+impl ChunkX { pub fn len(&self) -> (r: usize) ensures r == self.n { self.n } }
+#[derive(Debug)]
+pub struct VarIntErr { pub dummy: u8 }
+pub struct VarInt { pub v: u64 }
+impl VarInt {
+    // VarInt::try_from(usize): Ok iff the value is at most 2^62 - 1 (layer F/X varint obligations)
+    #[verifier::external_body]
+    pub fn try_from(n: usize) -> (r: Result<VarInt, VarIntErr>)
+        ensures r is Ok == (n as int <= 4611686018427387903), r is Ok ==> r->Ok_0.v as int == n as int,
+    { unimplemented!() }
+}
+pub struct ReleaseFcX { pub released: Ghost<int> }
+impl ReleaseFcX {
+    #[verifier::external_body]
+    pub fn release_window(&mut self, amount: VarInt) ensures final(self).released@ == old(self).released@ + amount.v as int { unimplemented!() }
+}
+pub struct CountersX { pub consumed: usize }
+pub struct ResponseCountersX { pub bytes: CountersX, pub chunks: CountersX }
+pub struct PollStream2 { pub flow_controller: ReleaseFcX }
+impl PollStream2 {
+    fn poll_request_chunk_accounting(&mut self, data: ChunkX, low_watermark: &mut usize, high_watermark: &mut usize, response: &mut ResponseCountersX)
+        requires
+            data.n <= 0x4000_0000,          // a reassembler slot is at most 1 GiB (allocation_size, layer F)
+            old(response).bytes.consumed + data.n <= usize::MAX, old(response).chunks.consumed < usize::MAX,
+        ensures
+            final(self).flow_controller.released@ == old(self).flow_controller.released@ + data.n as int,
+            final(response).bytes.consumed == old(response).bytes.consumed + data.n,
+            final(response).chunks.consumed == old(response).chunks.consumed + 1,
+            *final(low_watermark) as int == (if *old(low_watermark) >= data.n { *old(low_watermark) - data.n } else { 0 }),
+            *final(high_watermark) as int == (if *old(high_watermark) >= data.n { *old(high_watermark) - data.n } else { 0 }),
+    {
+//@ splice-stmts quic/s2n-quic-transport/src/stream/receive_stream.rs "ReceiveStream" poll_request "from=let data_len = data.len();" "to=*high_watermark = (*high_watermark)"
+//@ splice-stmts quic/s2n-quic-transport/src/stream/receive_stream.rs "ReceiveStream" poll_request "from=response.bytes.consumed += data_len;" "to=response.chunks.consumed += 1;"
+    }
+}
